@@ -2,7 +2,9 @@ import Srtla.Gen.Constants
 /-!
 # `send_all_datagrams` (src/net/mod.rs): the chunked `sendmmsg` loop
 
-In `Model/Sys.lean` a batch send is atomic (all or nothing, `failNext`).  The real function loops:
+In `Model/Sys.lean` a batch send either succeeds whole or fails after a PREFIX of the batch went out (`failNext`:
+nothing went out; `failAfter cid k`: the first `min k len` datagrams - round 8); how many is an input of the model.
+The real function loops:
 it offers at most `chunk` (= `BATCH_SEND_SIZE`) datagrams per `sendmmsg`, the kernel accepts a prefix
 of what was offered (possibly short), `Ok(0)` and `Err` abort.  Here the loop is transcribed by hand
 with the kernel's answers as a parameter (`oracle`), and it is proved that
@@ -10,7 +12,8 @@ with the kernel's answers as a parameter (`oracle`), and it is proved that
   order, each datagram once);
 * if the function returns `Ok(())` what went out is exactly the offered batch;
 * fuel = batch length is enough (the loop makes progress on every iteration).
-This file is proof-side only: partial kernel sends are not exercised by the harness.
+This file is proof-side only: SHORT kernel answers (`sendmmsg` accepting fewer than offered without an error) are not
+exercised by the harness; a failure after the first `k` datagrams is (ops `failafter`, hook `verif_fail::fail_after`).
 -/
 namespace Srtla.SendAll
 
